@@ -1,6 +1,9 @@
 #!/bin/sh
-# tools/mut.sh <prop> <file> <sed-expr>: apply a one-line mutation to /repo, run the check, restore.
+# tools/mut.sh <prop> <file> <sed-expr>: apply a one-line mutation to one file in /repo, run the check, restore that file only.
 P=$1; F=$2; E=$3
-cd /repo && sed -i "$E" "$F" && (git diff --stat | tail -1) && (go build ./... 2>&1 | head -3)
+cp /repo/$F /var/tmp/mut.bak || exit 1
+cd /repo && sed -i "$E" "$F"
+if cmp -s /repo/$F /var/tmp/mut.bak; then echo "MUTATION DID NOT APPLY"; fi
+(go build ./... 2>&1 | head -3)
 cd /verif && ./check $P 2>&1 | grep -E "VIOLATION|govc:" | cut -c1-260
-cd /repo && git checkout -- .
+cp /var/tmp/mut.bak /repo/$F && rm -f /var/tmp/mut.bak
